@@ -139,6 +139,7 @@ type interpreter struct {
 	memo    map[string]memoEntry // verifMemo results, per worker, across paths
 	randCtr int32 // deterministic stand-in for math/rand (unique tokens)
 	orderFree bool
+	extraDepth int // additional call depth allowed inside verifMemo
 	shadows   []shadowRec // verifShadow registrations, per path
 	syncMaps map[*value]*[]smEntry // sync.Map model state, per path
 	fbitsMemo map[int]*smt.Term // float term -> its bit-vector variable, per path
